@@ -31,7 +31,7 @@ META = {
               "by a retry; every order",
     "outside": "names longer than 3 parts, more than 4 names, alphabets beyond the 6 symbols (the code compares parts "
                "only by == and by str() order)",
-    "assumptions": ["isinstance rebound for amaranth_soc.memory; sorted/set/dict are the real implementations and call "
+    "assumptions": ["isinstance/range/int rebound for amaranth_soc.memory; sorted/set/dict are the real implementations and call "
                     "back into the proxies' __eq__/__lt__/__hash__ (hash constant 0)"],
     "rule": "one evaluation = one solver query; distinct_nontrivial = feasible paths passing the preconditions",
 }
